@@ -33,8 +33,12 @@ def cases(ctx):
                 yield {'kind': 'pair', 'D1': d1, 'D2': d2r}
     for i in range(500 if not thorough else 5000):
         Sig = rng.choice(gen.ALPHABETS)
-        d1 = gen.random_dfa(rng, 5, Sig)
-        d2 = gen.random_dfa(rng, 5, Sig)
+        if rng.random() < 0.15:      # names whose concatenations collide: 'q1'+'0' = 'q'+'10'
+            d1 = gen.random_dfa(rng, 5, Sig, gen.NAME_SCHEMES[5])
+            d2 = gen.random_dfa(rng, 5, Sig, gen.NAME_SCHEMES[6])
+        else:
+            d1 = gen.random_dfa(rng, 5, Sig)
+            d2 = gen.random_dfa(rng, 5, Sig)
         if not thorough or ctx.mine(i):
             yield {'kind': 'pair', 'D1': d1, 'D2': d2}
     for i in range(400 if not thorough else 4000):
